@@ -1953,6 +1953,21 @@ impl Bgi {
     }
 }
 
+/// Verification hook (observation only, compiled only with `--cfg icy_engine_verif`).
+#[cfg(icy_engine_verif)]
+impl Bgi {
+    /// viewport (x, y, width, height), current position, text window, line pattern bits
+    pub fn verif_state(&self) -> ((i32, i32, i32, i32), (i32, i32), Option<(i32, i32, i32, i32)>, Vec<bool>) {
+        let r = |r: &Rectangle| (r.start.x, r.start.y, r.size.width, r.size.height);
+        (
+            r(&self.viewport),
+            (self.current_pos.x, self.current_pos.y),
+            self.text_window.as_ref().map(r),
+            self.line_pattern.clone(),
+        )
+    }
+}
+
 fn chisel_inset(height: i32) -> (i32, i32) {
     if height < 12 {
         return (1, 1);
